@@ -242,6 +242,38 @@ def history(des, rep, timeout):
                 rp, o = replay(dict(kind='history'))
                 rep.violation('history[%s after stops 7/8/6]' % nm, MOD + '::_ParametricCipher._prepare_rounds', 'a later call returns a non-standard value after earlier stop-point calls', dict(kind='history'), str(res.get('model'))[:800], rp, o)
 
+def history_inplace(des, rep, timeout):
+    """calls do not influence each other (2): the SAME array object passed again after its contents were replaced in place gives the result of
+    the NEW contents, and the array returned by the first call still holds the first result (no state kept between calls, no shared buffer)"""
+    fnk = MOD + '::_ParametricCipher.parametric_cipher'
+    for mode, stop in (('encrypt', {}), ('decrypt', {}), ('encrypt', dict(at_round=0, after_step=0)), ('encrypt', dict(at_round=3, after_step=4))):
+        tag = '%s%s' % (mode, ',r%s,s%s' % (stop['at_round'], stop['after_step']) if stop else '')
+        def body():
+            st = H.sym_bytes('X', (8,), 'uint8'); X2 = H.sym_bytes('X2', (8,), 'uint8'); key = H.sym_bytes('K', (8,), 'uint8')
+            L.set_task(stubs=comp_stubs())
+            out1 = des.fn(mode)(st, key, **stop)
+            before = [out1.at(j) for j in range(out1.shape[-1])]
+            st[:] = X2                                              # the caller refills its buffer
+            out2 = des.fn(mode)(st, key, **stop)
+            after = [out1.at(j) for j in range(out1.shape[-1])]
+            return st, key, out2, before, after, out1.st is out2.st
+        for p, outc, exc in core.explore(body):
+            oname = 'history[%s: same array object, contents replaced in place between two calls]' % tag; case = dict(kind='history_inplace')
+            if exc is not None:
+                rep.obligation(oname, fnk, 'post', dict(result='sat', backend='exec', secs=0), sample=repr(exc))
+                rep.violation(oname, fnk, 'raises %r' % (exc,), case, None, *replay(case)); continue
+            st, key, out2, before, after, shared = outc
+            block = row_bits([st.at(j) for j in range(8)], 8); rks = spec_round_keys(8, 0, None)
+            kind, eb = D.tdes(block, D.passes_for(rks, mode), 0, stop.get('at_round', 15), stop.get('after_step', 9), SymBits); exp = words_of(kind, eb)
+            ok = out2.ndim == 1 and out2.shape[-1] == len(exp)
+            got = [word_of(bits_of(out2.at(j), 8)) for j in range(len(exp))] if ok else []
+            res = dict(result='sat', backend='exec', secs=0) if not ok else (dict(result='unsat', backend='structural', secs=0) if H.structurally_equal(got, exp) else solve.discharge(p.pc, H.eq_all(got, exp), timeout_ms=timeout))
+            rep.obligation(oname, fnk, 'post', res, sample='second call == fips46 of the new contents')
+            if res['result'] == 'sat': rep.violation(oname, fnk, 'the second call does not return the value of the new contents of the array', case, str(res.get('model'))[:600], *replay(case))
+            res2 = dict(result='sat', backend='frame-scan', secs=0) if shared else (dict(result='unsat', backend='structural', secs=0) if H.structurally_equal(before, after, simp=True) else solve.discharge(p.pc, H.eq_all(before, after), timeout_ms=timeout))
+            rep.obligation('history[%s: the array returned by the first call is not overwritten by the second]' % tag, fnk, 'frame', res2)
+            if res2['result'] == 'sat': rep.violation('history[%s: first result overwritten]' % tag, fnk, 'the result of an earlier call aliases a buffer that later calls write', case, None, *replay(case))
+
 def refusals(des, rep):
     for kw in (dict(at_round=16), dict(at_round=-1), dict(after_step=10), dict(after_step=-1), dict(at_des=1), dict(at_des=3, _kl=16)):
         kl = kw.pop('_kl', 8)
@@ -290,7 +322,7 @@ def main():
         rep.function(MOD + '::' + n, des.sha(n))
     check_tables(des, rep)
     dtypes = ['uint8', 'uint16'] if a.tier == 'quick' else ['uint8', 'uint16', 'uint32', 'uint64']      # primitives: byte arrays (unsigned); signed dtypes are refused by numpy's same_kind rule in IP/FP/E/P
-    units = [('prim', n, dt, lk) for n in PRIMS for dt in dtypes for lk in ('N', '1')] + [('lemma',), ('history',)]
+    units = [('prim', n, dt, lk) for n in PRIMS for dt in dtypes for lk in ('N', '1')] + [('lemma',), ('history',), ('history2',)]
     for mode in ('encrypt', 'decrypt'):
         for kl in (8, 16, 24, 128, 256, 384):
             for sk in ('N-N', '1-1', 'N-1', '1-N'):
@@ -303,6 +335,7 @@ def main():
         if kind == 'prim': prim_obligations(des, sub, args[0], args[1], args[2], timeout)
         elif kind == 'lemma': lemma_obligations(des, sub, timeout)
         elif kind == 'history': history(des, sub, timeout)
+        elif kind == 'history2': history_inplace(des, sub, timeout)
         elif kind == 'comp': composition(des, sub, args[0], args[1], args[2], args[3], timeout, args[4])
     P.run_units(rep, work, units)
     refusals(des, rep); canaries(des, rep, timeout)
